@@ -151,7 +151,11 @@ func vfC09Run(cs vfC09Case) string {
 	return ""
 }
 
-var vfHostileElems = []string{"..", "..", "..", ".", "", "a", "x", "canary", "dest2", "sib", "l1", "../x", "a/../../x", "../../canary", "/", "a/b", "..\\x", "...", ".. ", "inside"}
+var vfHostileElems = []string{"..", "..", "..", ".", "", "a", "x", "canary", "dest2", "sib", "l1", "../x", "a/../../x", "../../canary", "/", "a/b", "..\\x", "...", ".. ", "inside",
+	// elements that only turn into a parent step once they are cleaned
+	"./..", ".//..", "x/../..", "./../x", "a/./../..", "./", "../", "a/.", "..//x", "./../../canary"}
+
+var vfSubtleElems = []string{"a", "x", "canary", "sib", "l1", "dest2", "inside", "./..", ".//..", "x/../..", "a/./../..", "./", "...", ".. ", " ..", "..\\x", "..\x00", "..\t", "\u2025", ". .", "%2e%2e", "..;"}
 
 func vfCountUp(elems []string) int {
 	n := 0
@@ -170,6 +174,9 @@ func vfGenC09(rt *rapid.T) vfC09Case {
 	cs.Cfg = vfGenPairCfg(rt, 100)
 	cs.Cfg.Progress = false
 	cs.Cfg.Directory = rapid.IntRange(0, 2).Draw(rt, "dirmode") != 0
+	// subtle: names that a check looking only for "..", separators and empty elements could let through, among plain ones (most
+	// of a hostile list is refused at the first name, which ends the transfer before anything else is looked at)
+	subtle := rapid.IntRange(0, 2).Draw(rt, "subtle") != 0
 	n := rapid.IntRange(1, 4).Draw(rt, "nentries")
 	for i := 0; i < n; i++ {
 		var rel []string
@@ -178,7 +185,24 @@ func vfGenC09(rt *rapid.T) vfC09Case {
 			k = 1 // plain names carry one element (the base name as the peer states it)
 		}
 		for j := 0; j < k; j++ {
-			rel = append(rel, rapid.SampledFrom(vfHostileElems).Draw(rt, "elem"))
+			switch {
+			case subtle && (i == 0 || j == 0) && cs.Cfg.Directory:
+				// the transfer has to get past its first names before a later one can do harm
+				rel = append(rel, rapid.SampledFrom([]string{"top", "top", "a", "x", "sib"}).Draw(rt, "elem_plain"))
+			case subtle:
+				rel = append(rel, rapid.SampledFrom(vfSubtleElems).Draw(rt, "elem_subtle"))
+			default:
+				rel = append(rel, rapid.SampledFrom(vfHostileElems).Draw(rt, "elem"))
+			}
+		}
+		if subtle && cs.Cfg.Directory && i > 0 && rapid.Bool().Draw(rt, "climb") {
+			// one plain name, the same odd element one to three times, then a name that exists above the destination
+			odd := rapid.SampledFrom(vfSubtleElems[7:]).Draw(rt, "odd")
+			rel = []string{rapid.SampledFrom([]string{"top", "a", "x"}).Draw(rt, "climb_first")}
+			for m := rapid.IntRange(1, 3).Draw(rt, "climb_n"); m > 0; m-- {
+				rel = append(rel, odd)
+			}
+			rel = append(rel, rapid.SampledFrom([]string{"canary", "x", "a", "sib", "l1"}).Draw(rt, "climb_target"))
 		}
 		if rapid.IntRange(0, 30).Draw(rt, "verylong") == 0 {
 			rel[len(rel)-1] = strings.Repeat("L", 4096)
